@@ -226,3 +226,33 @@ impl Rng {
     self.below(den) < num
   }
 }
+
+/// Runs `f` with the process's standard output and standard error pointing at /dev/null: some calls of the code under
+/// test report on the console (Workspace::new on a directory prints every file it skips). Only for single-threaded
+/// phases of a check.
+pub fn silenced<T>(f: impl FnOnce() -> T) -> T {
+  use std::io::Write;
+  let _ = std::io::stdout().flush();
+  let _ = std::io::stderr().flush();
+  unsafe {
+    let devnull = libc::open(b"/dev/null\0".as_ptr() as *const libc::c_char, libc::O_WRONLY);
+    let (o1, o2) = (libc::dup(1), libc::dup(2));
+    if devnull >= 0 && o1 >= 0 && o2 >= 0 {
+      libc::dup2(devnull, 1);
+      libc::dup2(devnull, 2);
+    }
+    let r = f();
+    let _ = std::io::stdout().flush();
+    let _ = std::io::stderr().flush();
+    if devnull >= 0 && o1 >= 0 && o2 >= 0 {
+      libc::dup2(o1, 1);
+      libc::dup2(o2, 2);
+    }
+    for fd in [devnull, o1, o2] {
+      if fd >= 0 {
+        libc::close(fd);
+      }
+    }
+    r
+  }
+}
